@@ -1137,7 +1137,7 @@ def run(case, drv):
         tags.append("negative-zero")
     steps = case.get("session") or []
     results = []
-    st = sim_state(case)
+    st = content(m, game)          # row order as in the chart (a history may have re-ordered the rows of the case)
     for k, step in enumerate(steps):
         target = m
         cp = step.get("copy", 0)
